@@ -309,7 +309,7 @@ def r4(ctx):
     sub = Ctx(ctx.ix, 'C07', ctx.tier)
     errors = []
     for fn_ in (C07.r2,          # every fragment is consumed exactly once (a fragment in two molecules is written twice)
-                C07.r4, C07.r5, C07.r6, C07.r10):
+                C07.r4, C07.r5, C07.r6, C07.r10, C07.r1, C07.r9):
         try:
             fn_(sub)
         except AnalysisError as e_:
